@@ -81,6 +81,8 @@ pub struct Call {
     pub timeout_is_none: bool,
     /// minecraft / eco request settings were passed
     pub extra_is_none: bool,
+    /// minecraft request settings as passed: (protocol version, host name length, first host byte)
+    pub mc_settings: Option<(i32, usize, u8)>,
 }
 
 pub static mut CALLS: [Option<Call>; 2] = [None, None];
@@ -108,6 +110,7 @@ fn blank(fun: Fun) -> Call {
         unreal2_gs: None,
         timeout_is_none: true,
         extra_is_none: true,
+        mc_settings: None,
     }
 }
 
@@ -222,6 +225,10 @@ pub fn stub_mc_java(
     c.addr = Some(*address);
     c.timeout_is_none = timeout_settings.is_none();
     c.extra_is_none = request_settings.is_none();
+    if let Some(rs) = &request_settings {
+        let hb = rs.hostname.as_bytes();
+        c.mc_settings = Some((rs.protocol_version, hb.len(), if hb.is_empty() { 0 } else { hb[0] }));
+    }
     core::mem::forget((timeout_settings, request_settings));
     record(c);
     err()
@@ -524,6 +531,80 @@ pub fn args_eco(id: &str) {
     assert!(m.is_some());
     assert!(m.unwrap().addr == Some(dest), "module path: same destination as the definition");
     kani::cover!(port.is_none(), "default port used");
+}
+
+/// Extra request settings through the definition-driven entry point, Minecraft
+/// Java: settings that carry a host name but no protocol version must reach the
+/// protocol level as (that host name, the documented default version -1) - the
+/// same call the module makes with `RequestSettings::new_just_hostname`; with the
+/// version given too (symbolic, every i32) it is passed on unchanged.
+#[cfg(kani)]
+pub fn args_mc_java_extra(id: &str) {
+    let game = lookup(id);
+    let ip = any_addr_v4().ip();
+    let port: Option<u16> = kani::any();
+    symbolic_answer();
+    let dest = SocketAddr::new(ip, port.unwrap_or(game.default_port));
+    let version: Option<i32> = kani::any();
+    let mut extra = ExtraRequestSettings::default().set_hostname("h.example".to_string());
+    if let Some(v) = version {
+        extra = extra.set_protocol_version(v);
+    }
+    let r = gamedig::games::query::query_with_timeout_and_extra_settings(game, &ip, port, None, Some(extra));
+    let gk = match &r {
+        Ok(_) => None,
+        Err(e) => Some(e.kind.clone()),
+    };
+    core::mem::forget(r);
+    let g = take_call();
+    assert!(g.is_some(), "generic path makes exactly one protocol-level call");
+    let g = g.unwrap();
+    assert!(g.fun == Fun::McJava && g.addr == Some(dest) && g.timeout_is_none);
+    assert!(g.mc_settings == Some((version.unwrap_or(-1), 9, b'h')), "generic path: host name and protocol version (default -1) of the extra settings");
+    assert!(gk == answer_kind());
+    // the module with the same host name
+    let ms = match version {
+        None => minecraft::RequestSettings::new_just_hostname("h.example".to_string()),
+        Some(v) => minecraft::RequestSettings { hostname: "h.example".to_string(), protocol_version: v },
+    };
+    let r = minecraft::query_java(&ip, port, Some(ms));
+    core::mem::forget(r);
+    let m = take_call();
+    assert!(m.is_some());
+    let m = m.unwrap();
+    assert!(m.fun == Fun::McJava && m.addr == Some(dest));
+    assert!(m.mc_settings == g.mc_settings, "module path: same request settings as the generic path");
+    kani::cover!(version.is_none(), "protocol version defaulted");
+}
+
+/// The same for Valve: extra settings that set only one member override exactly
+/// that member of the definition's gather settings... no: caller-supplied extra
+/// settings *replace* the definition's (documented in query.rs); unset members take
+/// the Valve defaults (Try / Try / check on).
+#[cfg(kani)]
+pub fn args_valve_extra(id: &str) {
+    let game = lookup(id);
+    let ip = any_addr_v4().ip();
+    let port: Option<u16> = kani::any();
+    symbolic_answer();
+    let dest = SocketAddr::new(ip, port.unwrap_or(game.default_port));
+    let check: Option<bool> = kani::any();
+    let players_skip: bool = kani::any();
+    let mut extra = ExtraRequestSettings::default();
+    if let Some(c) = check {
+        extra = extra.set_check_app_id(c);
+    }
+    if players_skip {
+        extra = extra.set_gather_players(GatherToggle::Skip);
+    }
+    let want = definition_valve_settings(&extra);
+    let r = gamedig::games::query::query_with_timeout_and_extra_settings(game, &ip, port, None, Some(extra));
+    core::mem::forget(r);
+    let g = take_call();
+    assert!(g.is_some());
+    let g = g.unwrap();
+    assert!(g.fun == Fun::Valve && g.addr == Some(dest));
+    assert!(g.valve_gs == Some(want), "generic path: the caller's extra settings, unset members defaulted");
 }
 
 macro_rules! c14_args_valve {
